@@ -87,9 +87,14 @@ class EarliestStartTimeObserver(FeatureObserver):
 
         # Cache:
         operations_by_machine = dispatcher.instance.operations_by_machine
+        # The cached arrays below have one row per machine, so they can only
+        # be built if every machine processes the same number of operations.
         self._is_regular_instance = all(
             len(job) == len(dispatcher.instance.jobs[0])
             for job in dispatcher.instance.jobs
+        ) and all(
+            len(machine_ops) == len(operations_by_machine[0])
+            for machine_ops in operations_by_machine
         )
         if self._is_regular_instance:
             self._job_ids = np.array(
